@@ -18,7 +18,7 @@ ID = 'C16'
 
 MANIFEST = dict(
     technique='explicit-state enumeration of the logit-matrix input tree x all alignable transcriptions x all frame-shift subsets x threshold grid, and of all operation histories on a live BagOfHypotheses; real confidence code vs range/normalisation/invariance oracles',
-    text='Bounded exhaustive: every logit matrix with T <= 4 rows over a 9-row alphabet (C=3) with every alignable transcription, every subset of frames shifted by -5 / +3.3 (T <= 3), a threshold grid incl. 0, 1, inf and the occurring probabilities, through get_line_confidence, get_letter_confidence, PageParser.compute_line_confidence and line_confident_enough; and every history (depth <= 3 quick / 4 thorough) of add / set-lm_weight / query events on one BagOfHypotheses, whose posteriors must be the soft-max of vis + weight*lm after every event. Added sub-sweeps: frame shifts of +800, thresholds from -inf to inf, logits re-assigned on a live TextLine, float32 logits, caller-supplied log-probabilities passed twice, the cropped-window call of the ALTO exporter, and lines of more than 1000 frames.',
+    text='Bounded exhaustive: every logit matrix with T <= 4 rows over a 9-row alphabet (C=3) with every alignable transcription, every subset of frames shifted by -5 / +3.3 (T <= 3), a threshold grid incl. 0, 1, inf and the occurring probabilities, through get_line_confidence, get_letter_confidence, PageParser.compute_line_confidence and line_confident_enough; and every history (depth <= 3 quick / 4 thorough) of add / set-lm_weight / query events on one BagOfHypotheses, whose posteriors must be the soft-max of vis + weight*lm after every event. Added sub-sweeps: frame shifts of +800, thresholds from -inf to inf, logits re-assigned on a live TextLine, float32 logits, caller-supplied log-probabilities passed twice, the cropped-window call of the ALTO exporter, and lines of more than 1000 frames. Frames shifted by -120 (below the floor given to pruned entries) where every class is stored.',
     note='Real-valued logits outside the alphabet are not explored; word confidences in ALTO are checked under C06.',
     ref='3/C16')
 
